@@ -215,6 +215,16 @@ func run(w *vh.W, c *jcase) {
 				ob.Err = true
 			} else {
 				cnt := vars[o.I].Count()
+				// implementation-independent oracle (the marshal clause): the estimate is a function of
+				// the marshalled state, so Count() == Count() of Unmarshal(Marshal(clone of it))
+				if data, err := vars[o.I].Clone().(*hll.Plus).MarshalBinary(); err == nil {
+					fresh := new(hll.Plus)
+					if err := fresh.UnmarshalBinary(data); err == nil {
+						if c2 := fresh.Count(); c2 != cnt {
+							w.Fail(w.Len(), fmt.Sprintf("step %d: Count() of sketch variable %d returned %d, but Count() of Unmarshal(Marshal(the same sketch)) returns %d (same registers): the estimate is not a function of the sketch state", k, o.I, cnt, c2), "")
+						}
+					}
+				}
 				s := vars[o.I].StateVerif()
 				ob = obs{Kind: "count", Count: cnt, P: int(s.P), Sparse: s.Sparse}
 				if s.Sparse {
@@ -444,6 +454,101 @@ func genCase(w *vh.W) *jcase {
 	return c
 }
 
+// count-heavy programs: Count() is read after (almost) every step, each time followed by a
+// round trip into the scratch variable 3 and a Count() of the copy (the judge requires equal
+// counts for equal (precision, mode, registers / sparse count)); precisions >= 7 so that Added
+// keys can stay PENDING in tmpSet; receivers become dense through merges while holding few
+// registers, so dumps stay small. Shapes: Count-Count, Count-Merge-Count, Count-Add-Count, and
+// dense counted receiver <- merge of a sparse sketch whose keys are all still pending.
+func genCountHeavy(w *vh.W) *jcase {
+	r := w.Rng
+	c := &jcase{Raw: r.IntN(2) == 0}
+	p := []int{7, 8, 8, 10, 10, 14, 16}[r.IntN(7)]
+	var kpool []string
+	var hpool []uint64
+	count := func(i int) {
+		c.Ops = append(c.Ops, op{Op: "count", I: i}, op{Op: "roundtrip", I: i, J: 3}, op{Op: "count", I: 3})
+	}
+	add := func(i, n int) {
+		if c.Raw {
+			hs := make([]uint64, n)
+			for k := range hs {
+				hs[k] = craft(w, p, &hpool)
+			}
+			c.Ops = append(c.Ops, op{Op: "add", I: i, Hashes: hs})
+		} else {
+			c.Ops = append(c.Ops, op{Op: "add", I: i, Keys: genKeys(w, n, &kpool)})
+		}
+	}
+	for i := 0; i < 3; i++ {
+		c.Ops = append(c.Ops, op{Op: "new", I: i, P: p})
+	}
+	pend := 1 // how many keys stay pending in tmpSet at this precision: len*100 <= 2^p
+	if m := (1 << p) / 100; m > 1 {
+		pend = m
+	}
+	if pend > 4 {
+		pend = 4
+	}
+	shape := func() { // dense counted receiver <- sparse argument with only pending keys
+		a, b := r.IntN(3), r.IntN(3)
+		if a == b {
+			b = (a + 1) % 3
+		}
+		if r.IntN(2) == 0 {
+			add(a, 1+r.IntN(3))
+		}
+		c.Ops = append(c.Ops, op{Op: "merge", I: a, J: a}) // self-merge: a is dense now
+		count(a)
+		c.Ops = append(c.Ops, op{Op: "new", I: b, P: p})
+		add(b, 1+r.IntN(pend))
+		c.Ops = append(c.Ops, op{Op: "merge", I: a, J: b})
+		count(a)
+		if r.IntN(2) == 0 {
+			c.Ops = append(c.Ops, op{Op: "count", I: a})
+		}
+	}
+	shape()
+	nsteps := 6 + r.IntN(14)
+	for k := 0; k < nsteps; k++ {
+		i, j := r.IntN(3), r.IntN(3)
+		switch x := r.IntN(100); {
+		case x < 30:
+			add(i, 1+r.IntN(3))
+			if r.IntN(5) < 2 { // not always: a Count would flush the pending keys
+				count(i)
+			}
+		case x < 36:
+			c.Ops = append(c.Ops, op{Op: "stream", I: i, Seed: r.Uint64() >> uint(r.IntN(60)), N: 1 + r.IntN(8)})
+			count(i)
+		case x < 62:
+			if r.IntN(2) == 0 {
+				count(i) // Count - Merge - Count
+			}
+			c.Ops = append(c.Ops, op{Op: "merge", I: i, J: j})
+			count(i)
+		case x < 70:
+			if i != j {
+				c.Ops = append(c.Ops, op{Op: "clone", I: i, J: j})
+				count(j)
+			}
+		case x < 76:
+			c.Ops = append(c.Ops, op{Op: "new", I: i, P: p})
+			count(i)
+		case x < 88:
+			count(i)
+			c.Ops = append(c.Ops, op{Op: "count", I: i}) // twice in a row
+		default:
+			shape()
+		}
+	}
+	for i := 0; i < 3; i++ {
+		count(i)
+		c.Ops = append(c.Ops, op{Op: "observe", I: i})
+	}
+	return c
+}
+
 func handPicked() []*jcase {
 	H := func(hs ...uint64) []uint64 { return hs }
 	return []*jcase{
@@ -457,6 +562,8 @@ func handPicked() []*jcase {
 			{Op: "stream", I: 0, Seed: 9, N: 40}, {Op: "observe", I: 0}, {Op: "roundtrip", I: 0, J: 2}, {Op: "observe", I: 2}, {Op: "count", I: 0}, {Op: "count", I: 2}, {Op: "merge", I: 1, J: 2}, {Op: "observe", I: 1}}},
 		// precision errors
 		{Raw: false, Ops: []op{{Op: "new", I: 0, P: 3}, {Op: "new", I: 1, P: 19}, {Op: "new", I: 0, P: 4}, {Op: "new", I: 1, P: 5}, {Op: "add", I: 0, Keys: []string{"a", "b"}}, {Op: "merge", I: 0, J: 1}, {Op: "merge", I: 1, J: 0}, {Op: "observe", I: 0}, {Op: "observe", I: 2}}},
+		// dense, counted receiver merges a sparse sketch whose keys are still pending in tmpSet; Count again
+		{Raw: false, Ops: []op{{Op: "new", I: 0, P: 16}, {Op: "new", I: 1, P: 16}, {Op: "add", I: 0, Keys: []string{"a", "b", "c"}}, {Op: "merge", I: 0, J: 0}, {Op: "count", I: 0}, {Op: "add", I: 1, Keys: []string{"d", "e", "f", "g"}}, {Op: "merge", I: 0, J: 1}, {Op: "count", I: 0}, {Op: "roundtrip", I: 0, J: 3}, {Op: "count", I: 3}, {Op: "observe", I: 0}}},
 		// real xxhash, default precision
 		{Raw: false, Ops: []op{{Op: "new", I: 0, P: 16}, {Op: "new", I: 1, P: 16}, {Op: "add", I: 0, Keys: []string{"cpu,host=a", "cpu,host=b", "cpu,host=a"}}, {Op: "add", I: 1, Keys: []string{"cpu,host=b", "cpu,host=c"}}, {Op: "count", I: 0}, {Op: "merge", I: 0, J: 1}, {Op: "count", I: 0}, {Op: "observe", I: 0}, {Op: "roundtrip", I: 0, J: 2}, {Op: "count", I: 2}}},
 	}
@@ -545,7 +652,7 @@ func errorBound(w *vh.W) {
 
 func main() {
 	w := vh.New("C35", "From Verif Require Import Base.Prelude Model.C35.", "case", "check")
-	w.Rule = "programs over 4 sketch variables: NewPlus(p) with p from {4,4,5,5,6,7,8,8,10,14,16} (occasionally invalid 0/3/19 or a second precision), Add of items (1 case in 3: real items hashed by xxhash.Sum64, multiset with repeats; otherwise raw hash values through the hash hook: extremes, zero-middle-bit values that take the sparse `zeros` encoding, equal 25-bit prefixes, few-register clusters, splitmix64 streams long enough to leave the sparse representation), Merge i<-j incl. self-merge and mismatched precision, Clone, MarshalBinary+UnmarshalBinary, Count, state dump; every case ends with the union of variables 0 and 1 in both orders, a self-merge and a round trip, each followed by Count and a state dump. Non-trivial: >= 3 additions and >= 1 merge. Distinct: distinct Gallina terms."
+	w.Rule = "programs over 4 sketch variables: NewPlus(p) with p from {4,4,5,5,6,7,8,8,10,14,16} (occasionally invalid 0/3/19 or a second precision), Add of items (1 case in 3: real items hashed by xxhash.Sum64, multiset with repeats; otherwise raw hash values through the hash hook: extremes, zero-middle-bit values that take the sparse `zeros` encoding, equal 25-bit prefixes, few-register clusters, splitmix64 streams long enough to leave the sparse representation), Merge i<-j incl. self-merge and mismatched precision, Clone, MarshalBinary+UnmarshalBinary, Count, state dump; every case ends with the union of variables 0 and 1 in both orders, a self-merge and a round trip, each followed by Count and a state dump. One program in three is count-heavy: precision from {7,8,10,14,16}, few keys, Count() after almost every step (also twice in a row, Count-Merge-Count, Count-Add-Count), every Count followed by MarshalBinary+UnmarshalBinary into a scratch variable and a Count of the copy, and repeatedly the shape 'dense, already counted receiver merges a sparse sketch whose keys are all still pending in tmpSet, Count again'. Independently of Coq, EVERY Count() in every program is compared in Go with Count() of Unmarshal(Marshal(clone)). Non-trivial: >= 3 additions and >= 1 merge. Distinct: distinct Gallina terms."
 	var rc jcase
 	if w.ReplayCase(&rc) {
 		run(w, &rc)
@@ -555,8 +662,12 @@ func main() {
 	for _, c := range handPicked() {
 		run(w, c)
 	}
-	for w.Len() < w.N {
-		run(w, genCase(w))
+	for i := 0; w.Len() < w.N; i++ {
+		if i%3 == 2 {
+			run(w, genCountHeavy(w))
+		} else {
+			run(w, genCase(w))
+		}
 	}
 	errorBound(w)
 	w.Extra["self_merge_of_sparse_sketch"] = map[string]interface{}{
